@@ -28,15 +28,15 @@ From Oras Require Import Base.Prelude Base.Regex Generated.GC20 Generated.GC13 M
    statement is false without that last hypothesis. *)
 Theorem C13_refines_store_partial :
   forall (H : str -> str) (parse_mt : str -> option str) (subject_of : str -> option (option desc))
-         (main other : str) (user_mts : list str) (p : profile),
+         (main other : str) (user_mts : list str) (limit : N) (p : profile),
     str_eqb main other = false ->
     parse_mt ct_octet = Some ct_octet ->
     (forall c, valid_digest (H c) = true) ->
     forall other_blobs rst os g out,
       (forall d c, lookup d other_blobs = Some c -> d = H c) ->
       rst_ok p rst ->
-      wf_hist H parse_mt subject_of main user_mts p (mkStore [] [] [] other_blobs) os ->
-      run_history H parse_mt subject_of main other user_mts p None other_blobs rst os = (g, out) ->
+      wf_hist H parse_mt subject_of main user_mts limit p (mkStore [] [] [] other_blobs) os ->
+      run_history H parse_mt subject_of main other user_mts limit p None other_blobs rst os = (g, out) ->
       map snd out = snd (spec_run H subject_of main user_mts (mkStore [] [] [] other_blobs) os) /\
       store_of g = fst (spec_run H subject_of main user_mts (mkStore [] [] [] other_blobs) os).
 Proof. exact run_history_refines. Qed.
@@ -45,7 +45,7 @@ Print Assumptions C13_refines_store_partial.
 (* without the digest-header hypothesis the full statement is false (finding
    head-tag-no-digest-header): PushReference under a tag succeeds, Resolve of the tag fails *)
 Theorem C13_refines_store_refuted :
-  map snd (snd (run_history w_H (fun s => Some s) (fun _ => Some None) (b "app") (b "src") []
+  map snd (snd (run_history w_H (fun s => Some s) (fun _ => Some None) (b "app") (b "src") [] w_limit
                             w_profile None [] RSUnknown w_ops))
   = [ROk; RErr EOther] /\
   snd (spec_run w_H (fun _ => Some None) (b "app") [] (mkStore [] [] [] []) w_ops) = [ROk; RDesc w_desc].
@@ -59,10 +59,10 @@ Print Assumptions C13_refines_store_refuted.
    C13_refines_store_partial -- [wf_op] puts no other condition on the profile. *)
 Theorem C13_resolve_tag_needs_header :
   forall (H : str -> str) (parse_mt : str -> option str) (subject_of : str -> option (option desc))
-         (main other : str) (user_mts : list str) (p : profile) g n rst rs rf d mt c,
+         (main other : str) (user_mts : list str) (limit : N) (p : profile) g n rst rs rf d mt c,
     resolve_ref main rs = Some rf -> valid_digest rf = false ->
     man_lookup (store_of g) rf = Some (d, (mt, c)) -> p_dighdr p = false ->
-    snd (run_op H parse_mt subject_of main other user_mts (reg * N)
+    snd (run_op H parse_mt subject_of main other user_mts limit (reg * N)
                 (cexch H subject_of main other p None) (g, n) rst (OResolve rs)) = RErr EOther /\
     snd (spec_op H subject_of main user_mts (store_of g) (OResolve rs)) = RDesc (mkDesc mt d (len c)).
 Proof. exact resolve_tag_needs_header. Qed.
@@ -70,10 +70,10 @@ Print Assumptions C13_resolve_tag_needs_header.
 
 Theorem C13_fetchref_tag_needs_header :
   forall (H : str -> str) (parse_mt : str -> option str) (subject_of : str -> option (option desc))
-         (main other : str) (user_mts : list str) (p : profile) g n rst rs rf d mt c,
+         (main other : str) (user_mts : list str) (limit : N) (p : profile) g n rst rs rf d mt c,
     resolve_ref main rs = Some rf -> valid_digest rf = false ->
     man_lookup (store_of g) rf = Some (d, (mt, c)) -> p_dighdr p = false -> p_clen p = false ->
-    snd (run_op H parse_mt subject_of main other user_mts (reg * N)
+    snd (run_op H parse_mt subject_of main other user_mts limit (reg * N)
                 (cexch H subject_of main other p None) (g, n) rst (OFetchRef rs)) = RErr EOther /\
     snd (spec_op H subject_of main user_mts (store_of g) (OFetchRef rs)) = RDescBytes (mkDesc mt d (len c)) c.
 Proof. exact fetchref_tag_needs_header. Qed.
@@ -107,8 +107,8 @@ Print Assumptions C13_predecessors_reflect.
 (* Composition with C15 (Model/Paging.v): in every state the registry model reaches from
    the empty registry by any request sequence the manifest digests are distinct and
    non-empty, hence against a registry that PAGINATES the Referrers API in any legal way
-   (C15: any page split below the cap, any Link rendering that resolves, filtering announced
-   or not) the client's page loop delivers, concatenated, exactly the stored manifests with
+   (C15: any page split below the cap, last= or opaque-token cursors, any Link rendering that
+   resolves, filtering announced or not, entries held back by the registry's visibility filter) the client's page loop delivers, concatenated, exactly the stored manifests with
    the given subject (of the requested artifact type): Predecessors = concat of the pages. *)
 Theorem C13_registry_digests_distinct :
   forall (H : str -> str) (sj : str -> option desc) (main other : str) (p : profile),
@@ -120,35 +120,38 @@ Print Assumptions C13_registry_digests_distinct.
 Theorem C13_referrers_paged :
   forall (sj : str -> option desc) (atype : str -> str) g dg (cap : nat) (ds : nat -> P.decision)
          (render : nat -> P.url -> P.url -> str) (trailer : nat -> str)
-         (resolve : P.url -> str -> option P.url) (c : P.cfg) (path : str) (fuel : nat),
+         (resolve : P.url -> str -> option P.url) (c : P.cfg)
+         (cu : P.cursor) (npath : nat -> str -> str) (vis : P.item -> bool) (path : str) (fuel : nat),
     keys_ok g ->
+    PP.cursor_ok cu ->
     P.c_kind c = P.KReferrers ->
     (forall i base x, In x (map fst (ref_items sj atype g dg)) ->
-       contains P.c_gt (render i base (PP.link_target (ds i) base x)) = false) ->
+       contains P.c_gt (render i base (PP.link_target ds cu npath i base x)) = false) ->
     (forall i base x, In x (map fst (ref_items sj atype g dg)) ->
-       resolve base (render i base (PP.link_target (ds i) base x)) = Some (PP.link_target (ds i) base x)) ->
+       resolve base (render i base (PP.link_target ds cu npath i base x)) = Some (PP.link_target ds cu npath i base x)) ->
     (forall i, (Z.of_N (P.d_doc_len (ds i)) <= P.eff_limit (P.c_limit c))%Z) ->
     (forall i, P.qget P.k_at (P.d_extra (ds i)) = None) ->
     (length (ref_items sj atype g dg) < fuel)%nat ->
-    let t := P.loop (P.reg_serve P.KReferrers (ref_items sj atype g dg) cap ds render trailer) resolve
+    let t := P.loop (P.reg_serve P.KReferrers cu npath vis (ref_items sj atype g dg) cap ds render trailer) resolve
                     (fun _ => false) c fuel 0 0 (P.mkUrl path (PP.referrers_query (P.c_at c))) [] in
     P.t_out t = P.Done /\
-    concat (P.t_pages t) = P.filter_referrers (ref_items sj atype g dg) (P.c_at c) /\
+    concat (P.t_pages t) = P.filter_referrers (filter vis (ref_items sj atype g dg)) (P.c_at c) /\
     (length (P.t_reqs t) <= S (length (ref_items sj atype g dg)))%nat.
 Proof. exact referrers_paged. Qed.
 Print Assumptions C13_referrers_paged.
 
 Theorem C13_predecessors_paged :
-  forall (sj : str -> option desc) (atype : str -> str) g dg cap ds render trailer resolve c path fuel,
-    keys_ok g -> P.c_kind c = P.KReferrers -> P.c_at c = [] ->
+  forall (sj : str -> option desc) (atype : str -> str) g dg cap ds render trailer resolve c cu npath vis path fuel,
+    keys_ok g -> PP.cursor_ok cu -> P.c_kind c = P.KReferrers -> P.c_at c = [] ->
+    (forall it, vis it = true) ->
     (forall i base x, In x (map fst (ref_items sj atype g dg)) ->
-       contains P.c_gt (render i base (PP.link_target (ds i) base x)) = false) ->
+       contains P.c_gt (render i base (PP.link_target ds cu npath i base x)) = false) ->
     (forall i base x, In x (map fst (ref_items sj atype g dg)) ->
-       resolve base (render i base (PP.link_target (ds i) base x)) = Some (PP.link_target (ds i) base x)) ->
+       resolve base (render i base (PP.link_target ds cu npath i base x)) = Some (PP.link_target ds cu npath i base x)) ->
     (forall i, (Z.of_N (P.d_doc_len (ds i)) <= P.eff_limit (P.c_limit c))%Z) ->
     (forall i, P.qget P.k_at (P.d_extra (ds i)) = None) ->
     (length (ref_items sj atype g dg) < fuel)%nat ->
-    let t := P.loop (P.reg_serve P.KReferrers (ref_items sj atype g dg) cap ds render trailer) resolve
+    let t := P.loop (P.reg_serve P.KReferrers cu npath vis (ref_items sj atype g dg) cap ds render trailer) resolve
                     (fun _ => false) c fuel 0 0 (P.mkUrl path []) [] in
     P.t_out t = P.Done /\
     map fst (concat (P.t_pages t)) = map d_dg (referrers_of sj g dg).
@@ -159,7 +162,7 @@ Print Assumptions C13_predecessors_paged.
    fetched, re-tagged; a second manifest whose subject is the first one, found by
    Predecessors; a blob mounted from the sibling repository; deletions *)
 Example C13_refines_store_nonvacuous :
-  wf_hist w_H (fun s => Some s) ex_subject (b "app") [] ex_profile
+  wf_hist w_H (fun s => Some s) ex_subject (b "app") [] w_limit ex_profile
           (mkStore [] [] [] [(zero_digest, ex_blob)]) ex_ops /\
   rst_ok ex_profile RSUnknown /\
   snd (spec_run w_H ex_subject (b "app") [] (mkStore [] [] [] [(zero_digest, ex_blob)]) ex_ops)
@@ -176,13 +179,13 @@ Proof. exact refines_store_nonvacuous. Qed.
    the Location of a POST answer, when present, is an upload session. *)
 Theorem C13_requests_allowed :
   forall (H : str -> str) (parse_mt : str -> option str) (subject_of : str -> option (option desc))
-         (main other : str) (user_mts : list str)
+         (main other : str) (user_mts : list str) (limit : N)
          (srv : Type) (exch : srv -> request -> srv * response),
     valid_repository main = true -> valid_repository other = true ->
     loc_ok srv exch ->
     forall os s rst s' rst' out,
       Forall op_ok os ->
-      run_ops H parse_mt subject_of main other user_mts srv exch s rst os = (s', rst', out) ->
+      run_ops H parse_mt subject_of main other user_mts limit srv exch s rst os = (s', rst', out) ->
       Forall (fun tr => Forall (fun qr => allowed (fst qr) = true) (fst tr)) out.
 Proof. exact run_ops_allowed. Qed.
 Print Assumptions C13_requests_allowed.
@@ -191,11 +194,11 @@ Print Assumptions C13_requests_allowed.
    field except the status: every request of every history is allowed *)
 Theorem C13_requests_allowed_registry :
   forall (H : str -> str) (parse_mt : str -> option str) (subject_of : str -> option (option desc))
-         (main other : str) (user_mts : list str) (p : profile) (kor : option (N * corruption))
+         (main other : str) (user_mts : list str) (limit : N) (p : profile) (kor : option (N * corruption))
          other_blobs rst os g out,
     valid_repository main = true -> valid_repository other = true ->
     no_status_corruption kor -> Forall op_ok os ->
-    run_history H parse_mt subject_of main other user_mts p kor other_blobs rst os = (g, out) ->
+    run_history H parse_mt subject_of main other user_mts limit p kor other_blobs rst os = (g, out) ->
     Forall (fun tr => Forall (fun qr => allowed (fst qr) = true) (fst tr)) out.
 Proof. exact run_history_allowed. Qed.
 Print Assumptions C13_requests_allowed_registry.
@@ -256,37 +259,50 @@ Proof. vm_compute. repeat split; reflexivity. Qed.
    digest; a digest header must be valid and is the descriptor's digest; without
    one, HEAD works only for digest references and GET hashes the body. *)
 Theorem C13_corruption_rejected_descriptor :
-  forall (H : str -> str) (parse_mt : str -> option str) r rf hd d,
-    gen_desc H parse_mt r rf hd = Some d ->
+  forall (H : str -> str) (parse_mt : str -> option str) (limit : N) r rf hd d,
+    gen_desc H parse_mt limit r rf hd = Some d ->
     parse_mt (nstr (r_ctype r)) = Some (d_mt d) /\ r_clen r = Some (d_sz d) /\
     (valid_digest rf = true -> d_dg d = rf) /\
     match nstr (r_dig r) with
-    | [] => if hd then d_dg d = rf /\ valid_digest rf = true else d_dg d = H (r_body r)
+    | [] => if hd then d_dg d = rf /\ valid_digest rf = true
+            else d_dg d = H (r_body r) /\ (limit <? len (r_body r)) = false
     | sd => sd = d_dg d /\ valid_digest sd = true
     end.
 Proof. exact gen_desc_consistent. Qed.
 Print Assumptions C13_corruption_rejected_descriptor.
 
 Theorem C13_corruption_rejected_resolve :
-  forall (H : str -> str) (parse_mt : str -> option str) (main : str) (user_mts : list str)
+  forall (H : str -> str) (parse_mt : str -> option str) (main : str) (user_mts : list str) (limit : N)
          (srv : Type) (exch : srv -> request -> srv * response) s rs s' t d,
-    man_resolve H parse_mt main user_mts srv exch s rs = (s', t, RDesc d) ->
+    man_resolve H parse_mt main user_mts limit srv exch s rs = (s', t, RDesc d) ->
     exists rf q r, resolve_ref main rs = Some rf /\ t = [(q, r)] /\ q_ep q = EManifest rf /\
-                   r_status r = 200 /\ gen_desc H parse_mt r rf true = Some d.
+                   r_status r = 200 /\ gen_desc H parse_mt limit r rf true = Some d.
 Proof. exact man_resolve_consistent. Qed.
 Print Assumptions C13_corruption_rejected_resolve.
 
 Theorem C13_corruption_rejected_fetch_reference :
-  forall (H : str -> str) (parse_mt : str -> option str) (main : str) (user_mts : list str)
+  forall (H : str -> str) (parse_mt : str -> option str) (main : str) (user_mts : list str) (limit : N)
          (srv : Type) (exch : srv -> request -> srv * response) s rs s' t d c,
-    man_fetchref H parse_mt main user_mts srv exch s rs = (s', t, RDescBytes d c) ->
+    man_fetchref H parse_mt main user_mts limit srv exch s rs = (s', t, RDescBytes d c) ->
     exists rf q r rest, resolve_ref main rs = Some rf /\ t = (q, r) :: rest /\
       r_status r = 200 /\ c = r_body r /\
-      ((rest = [] /\ gen_desc H parse_mt r rf false = Some d) \/
-       (r_clen r = None /\ exists q2 r2, rest = [(q2, r2)] /\ r_status r2 = 200 /\
-                                         gen_desc H parse_mt r2 rf true = Some d)).
+      ((rest = [] /\ gen_desc H parse_mt limit r rf false = Some d) \/
+       (r_clen r = None /\ dig_consistent r (d_dg d) /\
+        exists q2 r2, rest = [(q2, r2)] /\ r_status r2 = 200 /\
+                      gen_desc H parse_mt limit r2 rf true = Some d)).
 Proof. exact man_fetchref_consistent. Qed.
 Print Assumptions C13_corruption_rejected_fetch_reference.
+
+(* blob FetchReference: also when the GET has no Content-Length (descriptor from a HEAD), the
+   digest header of the GET, whose body is returned, must not contradict the digest asked for *)
+Theorem C13_corruption_rejected_blob_fetch_reference :
+  forall (parse_mt : str -> option str) (main : str)
+         (srv : Type) (exch : srv -> request -> srv * response) s rs s' t d c,
+    blob_fetchref parse_mt main srv exch s rs = (s', t, RDescBytes d c) ->
+    exists rf q r rest, resolve_ref main rs = Some rf /\ valid_digest rf = true /\ t = (q, r) :: rest /\
+      r_status r = 200 /\ c = r_body r /\ d_dg d = rf /\ dig_consistent r rf.
+Proof. exact blob_fetchref_consistent. Qed.
+Print Assumptions C13_corruption_rejected_blob_fetch_reference.
 
 (* blob Resolve / Exists *)
 Theorem C13_corruption_rejected_blob_resolve :
@@ -319,7 +335,8 @@ Theorem C13_corruption_rejected_blob_upload :
   forall (srv : Type) (exch : srv -> request -> srv * response) s r1 d c sized s' t,
     complete_push srv exch s r1 d c sized = (s', t, ROk) ->
     exists rp ep q r2, r_loc r1 = Some (rp, ep) /\ t = [(q, r2)] /\ r_status r2 = 201 /\
-                       q_repo q = rp /\ q_ep q = ep /\ q_digest q = Some (d_dg d) /\ q_body q = c.
+                       q_repo q = rp /\ q_ep q = ep /\ q_digest q = Some (d_dg d) /\ q_body q = c /\
+                       (valid_digest (nstr (r_dig r2)) = true -> nstr (r_dig r2) = d_dg d).
 Proof. exact complete_push_consistent. Qed.
 Print Assumptions C13_corruption_rejected_blob_upload.
 
@@ -384,16 +401,47 @@ Example C13_location_example :
 Proof. vm_compute. reflexivity. Qed.
 
 (* ------------------------------------------------------------------ *)
-(* Read/Seek on a blob reader of a range-capable registry = an in-memory reader over the
+(* Read/Seek on a blob reader, with the registry model (any profile with range support)
+   answering the Range requests, = an in-memory reader over the
    blob's bytes, for every script and every behaviour of the response bodies (chunking,
    data together with io.EOF); a Range request "bytes=off-(size-1)" is emitted exactly when
    the position changes to an offset inside the blob. *)
 Theorem C13_seek :
-  forall (modes : nat -> bmode) content os,
-    rsc_run modes content (rsc_open content (len content)) os
-    = ref_run modes content (mkPos 0 false 0) os.
+  forall (modes : nat -> bmode) (p : profile) (d : str),
+    p_range p = true ->
+    forall content os,
+      rsc_run modes (range_srv p d content None) (rsc_open content (len content)) os
+      = ref_run modes content (mkPos 0 false 0) os.
 Proof. exact seek_refines. Qed.
 Print Assumptions C13_seek.
+
+(* Seek against ANY server (arbitrary, also corrupted, answers to the Range request): at most
+   one request, for bytes t..size-1 with t inside the blob, and it is one the specification
+   allows; a reconnect is accepted only from a 206 whose Content-Length is absent or the length
+   of the requested range, and the reader then serves that response's body.  (The digest header
+   of a 206 is not looked at: known finding seek-206-digest-unverified.) *)
+Theorem C13_seek_request_shape :
+  forall (modes : nat -> bmode) (srv : nat -> N -> N -> response) k o k1 rq out,
+    rsc_step modes srv k o = (k1, rq, out) ->
+    rq = [] \/ exists t, rq = [(t, k_size k - 1)] /\ t < k_size k /\ k_rq k1 = S (k_rq k).
+Proof. exact seek_request_shape. Qed.
+Print Assumptions C13_seek_request_shape.
+
+Theorem C13_seek_request_allowed :
+  forall (modes : nat -> bmode) (srv : nat -> N -> N -> response) main d k o k1 a bb out,
+    valid_repository main = true -> valid_digest d = true ->
+    rsc_step modes srv k o = (k1, [(a, bb)], out) ->
+    allowed (mkReq GET main (EBlob d) None None None None None (Some (a, bb)) []) = true.
+Proof. exact seek_request_allowed. Qed.
+Print Assumptions C13_seek_request_allowed.
+
+Theorem C13_corruption_rejected_seek :
+  forall (modes : nat -> bmode) (srv : nat -> N -> N -> response) k off w k1 t0 b0 t,
+    rsc_step modes srv k (SSeek off w) = (k1, [(t0, b0)], SPos t) ->
+    let r := srv (k_rq k) t (k_size k - 1) in
+    t0 = t /\ r_status r = 206 /\ len_consistent r (k_size k - t) /\ k_rc k1 = r_body r /\ k_off k1 = t.
+Proof. exact seek_accepts_consistent. Qed.
+Print Assumptions C13_corruption_rejected_seek.
 
 (* the readers C13_seek speaks of are the ones the client hands out: in every capability
    profile (also ranges without Content-Length on the GET, where the descriptor comes from a
@@ -438,7 +486,8 @@ Print Assumptions C13_seek_read.
 (* non-vacuity: a body that delivers 3 bytes per call and the last ones together with EOF;
    read to the very end, ask for the position, step back, re-read, seek to the same place *)
 Example C13_seek_example :
-  rsc_run (fun _ => mkBm 3 true) (b "hello world") (rsc_open (b "hello world") 11)
+  rsc_run (fun _ => mkBm 3 true) (range_srv (mkProfile true true true false false) zero_digest (b "hello world") None)
+          (rsc_open (b "hello world") 11)
           [SRead 2; SSeek 6 SeekStart; SRead 100; SRead 100; SSeek 0 SeekCurrent; SRead 1;
            SSeek (-1) SeekCurrent; SRead 5; SSeek 11 SeekStart; SSeek 0 SeekEnd]
   = [([], SData (b "he") false); ([(6, 10)], SPos 6); ([], SData (b "wor") false);
